@@ -197,31 +197,9 @@ func (r *c05run) fail(what string, detail J) {
 	emit(line)
 }
 
-// apply executes one operation on the real archive, returns what it observed and (if enabled)
-// evaluates the property on before/after.
+// apply executes one operation on the real archive and records what it observed.
 func (r *c05run) apply(o c05op) c05obs {
-	k := len(r.ops)
-	r.ops = append(r.ops, o)
 	st := c05newState(o.cand)
-	r.idxOf[st] = k
-	acts := c05bitsString(o.cand.bits)
-	if prev, seen := r.vecOfActs[acts]; seen {
-		if !c05sameVec(prev, o.cand.vec) {
-			r.consistent = false
-		}
-	} else {
-		r.vecOfActs[acts] = o.cand.vec
-	}
-	if k > 0 && len(o.cand.vec) != len(r.ops[0].cand.vec) {
-		r.sameDim = false
-	}
-	if o.kind != c05Offer {
-		r.anyForce = true
-	}
-	if o.kind == c05ForceRaw {
-		r.anyRaw = true
-	}
-
 	before := r.snapshot()
 	var results []uint
 	var mid []*marchive.CompressedModelState // archive between attempt and force (OfferForce)
@@ -240,14 +218,39 @@ func (r *c05run) apply(o c05op) c05obs {
 			results = append(results, uint(r.arch.ForceModelStateIntoArchive(st)))
 		}
 	})
-	ob := c05obs{Panic: panicked, Res: results, Removed: []int{}, Added: []int{}}
-	if panicked {
-		if ob.Res == nil {
-			ob.Res = []uint{}
+	return r.record(o, panicked, results, before, mid, r.snapshot())
+}
+
+// record books one executed operation (whoever executed it: apply above, or a live explorer): stream
+// flags, the lossless before/after diff by entry identity, Len(), IsNonDominant(), and (if enabled) the
+// property evaluated on before/after.
+func (r *c05run) record(o c05op, panicked bool, results []uint, before, mid, after []*marchive.CompressedModelState) c05obs {
+	k := len(r.ops)
+	r.ops = append(r.ops, o)
+	acts := c05bitsString(o.cand.bits)
+	if prev, seen := r.vecOfActs[acts]; seen {
+		if !c05sameVec(prev, o.cand.vec) {
+			r.consistent = false
 		}
+	} else {
+		r.vecOfActs[acts] = o.cand.vec
+	}
+	if k > 0 && len(o.cand.vec) != len(r.ops[0].cand.vec) {
+		r.sameDim = false
+	}
+	if o.kind != c05Offer {
+		r.anyForce = true
+	}
+	if o.kind == c05ForceRaw {
+		r.anyRaw = true
+	}
+	ob := c05obs{Panic: panicked, Res: results, Removed: []int{}, Added: []int{}}
+	if ob.Res == nil {
+		ob.Res = []uint{}
+	}
+	if panicked {
 		return ob
 	}
-	after := r.snapshot()
 	inAfter := map[*marchive.CompressedModelState]bool{}
 	for _, s := range after {
 		inAfter[s] = true
@@ -261,7 +264,11 @@ func (r *c05run) apply(o c05op) c05obs {
 	}
 	for _, s := range after {
 		if !inBefore[s] {
-			ob.Added = append(ob.Added, r.idxOf[s])
+			r.idxOf[s] = k // whatever entered the archive during operation k is exported as candidate k
+			ob.Added = append(ob.Added, k)
+			if e := c05entryOf(s); !c05sameVec(e.vec, o.cand.vec) || e.acts != acts {
+				r.fail("an entry that is not the offered candidate entered the archive", J{"entered": J{"vec": e.vec, "acts": e.acts}})
+			}
 		}
 	}
 	ob.Len = r.arch.Len()
@@ -270,7 +277,7 @@ func (r *c05run) apply(o c05op) c05obs {
 		ob.Nd = &nd
 	}
 	if r.oracleOn && r.sameDim {
-		r.oracle(o, st, before, mid, after, results)
+		r.oracle(o, before, mid, after, results)
 	}
 	return ob
 }
@@ -285,8 +292,8 @@ func c05plainEntries(ss []*marchive.CompressedModelState) []J {
 }
 
 // oracle: C05 evaluated on what the real archive did (independent of the Coq model).
-func (r *c05run) oracle(o c05op, st *marchive.CompressedModelState, before, mid, after []*marchive.CompressedModelState, results []uint) {
-	c := c05entryOf(st)
+func (r *c05run) oracle(o c05op, before, mid, after []*marchive.CompressedModelState, results []uint) {
+	c := c05entry{vec: o.cand.vec, acts: c05bitsString(o.cand.bits)}
 	removedFrom := func(from, to []*marchive.CompressedModelState) []*marchive.CompressedModelState {
 		in := map[*marchive.CompressedModelState]bool{}
 		for _, s := range to {
@@ -300,9 +307,10 @@ func (r *c05run) oracle(o c05op, st *marchive.CompressedModelState, before, mid,
 		}
 		return res
 	}
-	present := func(ss []*marchive.CompressedModelState) bool {
-		for _, s := range ss {
-			if s == st {
+	// the candidate is present in post: one entry that was not in pre and carries the candidate's vector and action set
+	present := func(pre, post []*marchive.CompressedModelState) bool {
+		for _, s := range removedFrom(post, pre) {
+			if e := c05entryOf(s); c05sameVec(e.vec, c.vec) && e.acts == c.acts {
 				return true
 			}
 		}
@@ -341,7 +349,7 @@ func (r *c05run) oracle(o c05op, st *marchive.CompressedModelState, before, mid,
 				r.fail("a refusal changed the archive", detail())
 			}
 		case marchive.StoredWithNoDominanceDetected, marchive.StoredReplacingDominatedEntries:
-			if !present(post) {
+			if !present(pre, post) {
 				r.fail("stored candidate is not present afterwards", detail())
 			}
 			for _, m := range removedFrom(pre, post) {
@@ -360,7 +368,7 @@ func (r *c05run) oracle(o c05op, st *marchive.CompressedModelState, before, mid,
 		if marchive.StorageResult(res) != marchive.StoredForcingDominatingStateRemoval {
 			r.fail(fmt.Sprintf("unexpected storage result %d from ForceModelStateIntoArchive", res), detail())
 		}
-		if !present(post) {
+		if !present(pre, post) {
 			r.fail("forced candidate is not present afterwards", detail())
 		}
 		for _, m := range removedFrom(pre, post) {
